@@ -211,11 +211,10 @@ func (cc *ClientConn) newStream(
 		}
 	}
 
-	id, rw, teardown, err := cc.mp.NewStreamReadWriter(ctx)
-	if err != nil {
-		return nil, err
-	}
+	var err error
 
+	// The RPC begins here for the stats handlers: an open that fails, for
+	// whatever reason, is reported to them as Begin followed by End.
 	beginTime := time.Now()
 	for _, sh := range cc.statsHandlers {
 		ctx = sh.TagRPC(ctx, &stats.RPCTagInfo{
@@ -241,6 +240,11 @@ func (cc *ClientConn) newStream(
 			}
 		}
 	}()
+
+	id, rw, teardown, err := cc.mp.NewStreamReadWriter(ctx)
+	if err != nil {
+		return nil, err
+	}
 
 	// open stream
 	rpc := goatorepo.Rpc{
